@@ -324,6 +324,16 @@ fn validate_nodata_response(
                 Proof::Bogus,
                 format_args!("nsec3 type map covers {query_type} or CNAME"),
             );
+        } else if query_type != RecordType::DS
+            && query_record.nsec3_data.type_set().contains(RecordType::NS)
+            && !query_record.nsec3_data.type_set().contains(RecordType::SOA)
+        {
+            // RFC 6840 4.1: an NSEC3 from the parent side of a zone cut only proves the absence of
+            // DS records; it says nothing about other types at the cut.
+            return cx.proof(
+                Proof::Bogus,
+                "matching nsec3 is an ancestor delegation and the query type is not DS",
+            );
         } else {
             return cx.proof(
                 Proof::Secure,
